@@ -1,4 +1,2042 @@
 package main
 
-// genFastCsv: placeholder until the translation of this part of the library is written (an empty generated file).
-func genFastCsv() string { return "" }
+// Translation of internal/fastcsv/csv.go into Gallina (coq/Gen/GenFastCsv.v, tie T1 for the CSV scanner).
+//
+// The struct types eofReaderWrapper, bufferedReader, fields, Reader become records, the functions listed in
+// gvSpecs are translated statement by statement into state-passing definitions gv_<Receiver>_<name>.
+// coq/Proofs/GenFastCsvProofs.v proves every generated definition equal to the hand-written model of
+// coq/Model/FastCsv.v (the one the csv engine executes), so that an edit of csv.go changes the generated text and
+// breaks a named theorem T1_csv_<name> of coq/Properties/T1Csv.v, while the theorems of C12 / C15 keep talking
+// about the model.
+//
+// THE SCHEME (anything that does not fit is reported through problem(...); the block then keeps the text of the
+// golden copy, marked FALLBACK, so that the development still builds — the exit status says the tie is broken).
+//
+//	io.Reader   THE ABSTRACTION BOUNDARY.  The underlying reader is a value of an arbitrary type R together with an
+//	            arbitrary function  read : R -> Z -> list N * gv_error * R  (section variables): asked for at most
+//	            c bytes it answers the bytes it delivers, its error and its next state.  X.Read(p) on such a value is
+//	            gv_io_read: n = the number of delivered bytes, which are written to the start of the window p; an
+//	            answer longer than the window is a Panic (such a reader writes outside p); the rest of the window
+//	            is left alone (Go allows a reader to scribble there: abstracted, those bytes are never looked at).
+//	            The place bufferedReader.r (static type io.Reader) has the finer type eofReaderWrapper: the
+//	            translator's type check accepts only such a value there (NewReader stores &eofReaderWrapper{r: r}),
+//	            so b.r.Read is the translated eofReaderWrapper.Read.
+//	errors      gv_error = gv_nil | gv_EOF | gv_other.  io.EOF ITSELF is gv_EOF, every other non-nil error is the
+//	            one value gv_other; errors may only be compared (== / !=) with each other, stored and returned.
+//	[]byte      four finer types, fixed per place (gvPlaces) or inferred from the initialiser:
+//	            buf    a slice that OWNS its backing array (bufferedReader.data, the result of make([]byte, n, c)):
+//	                   gv_buf = (array from the slice start up to the capacity, len); cap = length of the array.
+//	            view   a slice expression X[lo:hi] of a buf, stored or returned (fields.field, the elements of
+//	                   fieldsBuffer, the first result of nextQuotedField): the pair (lo, hi) of offsets INTO THE ARRAY
+//	                   OF THE SCAN BUFFER.  The identity of the array is abstracted: a view made before more()
+//	                   reallocated the array is read from the new array (which starts with a copy of the old one;
+//	                   bytes in front of the field being scanned are never written again; trusted, as in the header of
+//	                   Model/FastCsv.v — the csv engine compares the copied-out rows).  v[i] and v[lo:hi] of a view are
+//	                   taken in the data of the one bufferedReader reachable from the receiver.  nil is (0, 0).
+//	            views  [][]byte: list of views; make([][]byte, 0, c) and x[:0] are [], append is ++ [v] (the
+//	                   capacity of this slice is not observable and not kept).
+//	            win    the []byte argument of a Read: (length of the window, bytes written to its start).  A slice
+//	                   expression of a buf passed to Read is bounds-checked, turned into a window, and the bytes
+//	                   written come back into the array at its lower bound (gv_win_blit).
+//	            b[i] / b[lo:hi] / b = b[:hi] (gv_index / gv_slice / gv_reslice) panic exactly when Go does (index
+//	            against len, slice bounds against cap).  copy(dst, src) on (slice expressions of) bufs is gv_copy:
+//	            min(len dst, len src) bytes, all read before any is written (memmove).
+//	integers    Go int -> Z, exact (positions, lengths, counters: overflow of int is outside the translation as it
+//	            is outside the model); % is Z.rem, / is Z.quot; x > y is (y <? x).  byte -> N, only compared.
+//	records     struct -> Record gv_<T> R with one projection gv_<T>_<field> and one setter gv_<T>_set_<field> per
+//	            field; generated from the type declarations.
+//	pointers    *T (receivers, the argument of nextQuotedField, &T{..}) is the T value itself, threaded through:
+//	            a function answers  outcome (r1 * .. * rn * out1 * .. * outm)  where the outs are, in this order, its
+//	            pointer / window arguments and last its pointer receiver.  At a call x.m(..) / f(&x.y, ..) the new
+//	            values are stored back into the places they were taken from.  Sound because the callee has no other
+//	            access path to the pointee.  Such a call may only stand as a statement, as the only right-hand side
+//	            of an assignment / if-init, as a whole condition or as the only returned value.
+//	fuel        a function that contains a loop or calls such a function takes (fuel : nat) first:
+//	            gv_f fuel .. = match fuel with O => Panic | S fuel' => body end; inside body every for loop is entered
+//	            with the budget fuel' (each entry afresh), every call of a fuelled function gets fuel'.  The other
+//	            functions take no fuel.  Panic = Go panic OR fuel used up.
+//	statements  const c = 1; x := e; x = e; x.f.g = e; x++; a, b := f(..); p.f, p.g = f(..); x.m(..); copy(..)
+//	conditions  && and || are if-then-else (Go's short circuit); when the right operand can panic (an index
+//	            expression) the condition is computed as an outcome first: do t <- (if a then .. else Ok false).
+//	if          with or without init statement.  When no branch leaves the statement (no return / break /
+//	            continue inside): do (assigned outer variables) <- (if c then ..; Ok (..) else ..; Ok (..)); rest.
+//	            Otherwise the rest of the block is continued inside the branches that fall through.
+//	switch      switch tag { case a: .. case b, c: .. default: .. } is the if-chain tag == a, tag == b || tag == c ..
+//	            in source order (no fallthrough, no break inside); the rest of the block continues in the cases that
+//	            fall through.
+//	for         for [cond] { body }: a Fixpoint gv_f_loopN over its own counter k (O => Panic), numbered in order of
+//	            completion (inner loops first), taking [fuel'] k and the variables it mentions; continue = the next
+//	            trip.  Three kinds, by what happens inside:
+//	            A  no return inside: answers the outer variables it assigns; exit (cond false / break) = Ok (those).
+//	            B  return inside, no condition and no break (never left otherwise): answers the function's result;
+//	               the call is the last thing the enclosing block does.
+//	            C  return inside and a normal exit: answers  result + (assigned outer variables):  inl r = the
+//	               function returned r, inr vs = the loop was left normally; the call site matches on it.
+//	rejected    goto, labels, fallthrough, defer, closures, shadowing, range, break inside switch, 3-index slices,
+//	            calls with side effects inside expressions, arithmetic on bytes, everything else.
+
+import (
+	"flag"
+	"fmt"
+	"go/ast"
+	"go/token"
+	"math/big"
+	"os"
+	"path/filepath"
+	"strings"
+)
+
+const gvPkg = "internal/fastcsv"
+
+// in dependency order (a callee before its callers)
+var gvSpecs = []string{"eofReaderWrapper.Read", "bufferedReader.more", "bufferedReader.reset", "fields.reset",
+	"fields.nextUnquotedField", "nextQuotedField", "fields.next", "Reader.Next", "Reader.Fields", "Reader.Err",
+	"Reader.Read", "NewReader"}
+
+// the structs that become records, in dependency order
+var gvStructs = []string{"eofReaderWrapper", "bufferedReader", "fields", "Reader"}
+
+// the finer types of []byte / io.Reader places ("Struct.field", "function.argument", "function.resultN")
+var gvPlaces = map[string]string{
+	"eofReaderWrapper.r":      "rd",
+	"bufferedReader.r":        "struct:eofReaderWrapper",
+	"bufferedReader.data":     "buf",
+	"fields.field":            "view",
+	"eofReaderWrapper.Read.b": "win",
+	"nextQuotedField.result0": "view",
+	"NewReader.r":             "rd",
+}
+
+const gvPreamble1 = `(* GENERATED by tools/qf2coq (fastcsv.go) from internal/fastcsv/csv.go of tobgu/qframe — do not edit.
+   One Record per struct, one definition gv_<Receiver>_<function> per translated Go function, one Fixpoint
+   .._loopN per loop; the scheme is described at the top of tools/qf2coq/fastcsv.go.
+   R / read : the underlying io.Reader (arbitrary state type, arbitrary answers: bytes, error, next state).
+   gv_buf = (backing array up to the capacity, len): a []byte that owns its array; a view is the pair (lo, hi) of
+   offsets into the array of the scan buffer; gv_win = (length, bytes written): the argument of a Read.
+   Integers are Z (exact), bytes are N.  A function with a loop (or calling one) takes fuel first: O => Panic,
+   S fuel' => the body, whose loops and fuelled calls all get fuel'.  Results: the Go results, then the new values
+   of the pointer / window arguments, then the new receiver. *)
+From QF Require Import Base.Prelude.
+Local Open Scope Z_scope.
+
+(* error values: nil, io.EOF itself, anything else *)
+Inductive gv_error := gv_nil | gv_EOF | gv_other.
+Definition gv_error_eqb (a b : gv_error) : bool :=
+  match a, b with gv_nil, gv_nil | gv_EOF, gv_EOF | gv_other, gv_other => true | _, _ => false end.
+
+Definition gv_buf : Type := list N * Z.
+Definition gv_win : Type := Z * list N.
+Definition gv_len (b : gv_buf) : Z := snd b.
+Definition gv_cap (b : gv_buf) : Z := Z.of_nat (length (fst b)).
+(* make([]byte, n, c) *)
+Definition gv_make (n c : Z) : outcome gv_buf :=
+  if (n <? 0) || (c <? n) then Panic else Ok (repeat 0%N (Z.to_nat c), n).
+(* b[i] *)
+Definition gv_index (b : gv_buf) (i : Z) : outcome N :=
+  if (i <? 0) || (gv_len b <=? i) then Panic else idx (fst b) (Z.to_nat i).
+(* b[lo:hi] as a view; b = b[:hi] *)
+Definition gv_slice (b : gv_buf) (lo hi : Z) : outcome (Z * Z) :=
+  if (lo <? 0) || (hi <? lo) || (gv_cap b <? hi) then Panic else Ok (lo, hi).
+Definition gv_reslice (b : gv_buf) (hi : Z) : outcome gv_buf :=
+  if (hi <? 0) || (gv_cap b <? hi) then Panic else Ok (fst b, hi).
+(* len(v), v[i], v[lo:hi] of a view v into the scan buffer b *)
+Definition gv_view_len (v : Z * Z) : Z := snd v - fst v.
+Definition gv_view_index (b : gv_buf) (v : Z * Z) (i : Z) : outcome N :=
+  if (i <? 0) || (gv_view_len v <=? i) then Panic else idx (fst b) (Z.to_nat (fst v + i)).
+Definition gv_view_slice (b : gv_buf) (v : Z * Z) (lo hi : Z) : outcome (Z * Z) :=
+  if (lo <? 0) || (hi <? lo) || (gv_cap b - fst v <? hi) then Panic else Ok (fst v + lo, fst v + hi).
+(* writing bytes into an array from a position on *)
+Definition gv_blit (a : list N) (pos : nat) (out : list N) : list N :=
+  firstn pos a ++ out ++ skipn (pos + length out) a.
+(* copy(dst[doff : doff+dlen], src[soff : soff+slen]) *)
+Definition gv_copy (dst : gv_buf) (doff dlen : Z) (src : gv_buf) (soff slen : Z) : gv_buf :=
+  (gv_blit (fst dst) (Z.to_nat doff) (firstn (Z.to_nat (Z.min dlen slen)) (skipn (Z.to_nat soff) (fst src))), snd dst).
+(* the window b[lo:hi] handed to a Read, and the bytes written to it coming back *)
+Definition gv_win_of (v : Z * Z) : gv_win := (snd v - fst v, []).
+Definition gv_win_blit (b : gv_buf) (v : Z * Z) (w : gv_win) : gv_buf :=
+  (gv_blit (fst b) (Z.to_nat (fst v)) (snd w), snd b).
+(* x[i], x[i] = v on a [][]byte *)
+Definition gv_list_index {T : Type} (s : list T) (i : Z) : outcome T :=
+  if i <? 0 then Panic else idx s (Z.to_nat i).
+Definition gv_list_update {T : Type} (s : list T) (i : Z) (v : T) : outcome (list T) :=
+  if i <? 0 then Panic else do _ <- idx s (Z.to_nat i); Ok (set_nth s (Z.to_nat i) v).
+
+`
+
+const gvPreamble2 = `
+Section GenFastCsv.
+Context {R : Type}.
+Variable read : R -> Z -> list N * gv_error * R.
+
+(* X.Read(p) on the underlying reader *)
+Definition gv_io_read (rd : R) (w : gv_win) : outcome (Z * gv_error * gv_win * R) :=
+  let '(out, e, rd') := read rd (fst w) in
+  if fst w <? Z.of_nat (length out) then Panic else Ok (Z.of_nat (length out), e, (fst w, out), rd').
+
+`
+
+// ------------------------------------------------------------------ types
+
+type gvT struct {
+	k     string // int bool byte err buf view views win rd struct const nil bad
+	sname string
+	ptr   bool
+	val   *big.Rat
+}
+
+var (
+	gvInt   = &gvT{k: "int"}
+	gvBool  = &gvT{k: "bool"}
+	gvByte  = &gvT{k: "byte"}
+	gvErr   = &gvT{k: "err"}
+	gvBuf   = &gvT{k: "buf"}
+	gvView  = &gvT{k: "view"}
+	gvViews = &gvT{k: "views"}
+	gvWin   = &gvT{k: "win"}
+	gvRd    = &gvT{k: "rd"}
+	gvNil   = &gvT{k: "nil"}
+	gvBad   = &gvT{k: "bad"}
+)
+
+func (t *gvT) same(u *gvT) bool { return t.k == u.k && t.sname == u.sname }
+
+func (t *gvT) name() string {
+	if t.k == "struct" {
+		return t.sname
+	}
+	return t.k
+}
+
+func (t *gvT) coq() string {
+	switch t.k {
+	case "int":
+		return "Z"
+	case "bool":
+		return "bool"
+	case "byte":
+		return "N"
+	case "err":
+		return "gv_error"
+	case "buf":
+		return "gv_buf"
+	case "view":
+		return "(Z * Z)"
+	case "views":
+		return "(list (Z * Z))"
+	case "win":
+		return "gv_win"
+	case "rd":
+		return "R"
+	case "struct":
+		if s := gvStructTab[t.sname]; s != nil {
+			return s.tyApp()
+		}
+	}
+	return "BAD"
+}
+
+func (t *gvT) zero() (string, bool) {
+	switch t.k {
+	case "int":
+		return "0", true
+	case "bool":
+		return "false", true
+	case "byte":
+		return "0%N", true
+	case "err":
+		return "gv_nil", true
+	case "buf":
+		return "(@nil N, 0)", true
+	case "view":
+		return "(0, 0)", true
+	case "views":
+		return "[]", true
+	}
+	return "BAD", false
+}
+
+type gvField struct {
+	name string
+	t    *gvT
+}
+
+type gvStruct struct {
+	name   string
+	fields []gvField
+	needR  bool
+	ok     bool
+}
+
+var gvStructTab map[string]*gvStruct
+
+// gvResolve maps a Go type expression to a translation type; place is "Struct.field" or "func.arg".
+func gvResolve(p *pkgInfo, e ast.Expr, place string) *gvT {
+	src := ggSrc(p.fset, e)
+	fine := func() *gvT {
+		pl, ok := gvPlaces[place]
+		if !ok {
+			return gvBad
+		}
+		if strings.HasPrefix(pl, "struct:") {
+			return &gvT{k: "struct", sname: pl[len("struct:"):], ptr: true}
+		}
+		return &gvT{k: pl}
+	}
+	switch src {
+	case "int":
+		return gvInt
+	case "bool":
+		return gvBool
+	case "byte":
+		return gvByte
+	case "error":
+		return gvErr
+	case "[][]byte":
+		return gvViews
+	case "[]byte", "io.Reader":
+		return fine()
+	}
+	ptr := strings.HasPrefix(src, "*")
+	base := strings.TrimPrefix(src, "*")
+	for _, s := range gvStructs {
+		if s == base {
+			return &gvT{k: "struct", sname: s, ptr: ptr}
+		}
+	}
+	return gvBad
+}
+
+func gvLoadStructs(p *pkgInfo) {
+	gvStructTab = map[string]*gvStruct{}
+	decls := map[string]*ast.StructType{}
+	for _, f := range p.files {
+		for _, d := range f.Decls {
+			gd, ok := d.(*ast.GenDecl)
+			if !ok || gd.Tok != token.TYPE {
+				continue
+			}
+			for _, s := range gd.Specs {
+				ts := s.(*ast.TypeSpec)
+				if st, ok := ts.Type.(*ast.StructType); ok {
+					decls[ts.Name.Name] = st
+				}
+			}
+		}
+	}
+	for _, name := range gvStructs {
+		s := &gvStruct{name: name, ok: true}
+		gvStructTab[name] = s
+		st, ok := decls[name]
+		if !ok {
+			problem("internal/fastcsv/csv.go translation: struct %s not found", name)
+			s.ok = false
+			continue
+		}
+		for _, fl := range st.Fields.List {
+			if len(fl.Names) == 0 {
+				problem("internal/fastcsv/csv.go translation: struct %s has an embedded field", name)
+				s.ok = false
+			}
+			for _, n := range fl.Names {
+				t := gvResolve(p, fl.Type, name+"."+n.Name)
+				if t.k == "bad" || t.k == "win" {
+					problem("internal/fastcsv/csv.go translation: field %s.%s has a type that is not understood: %s", name, n.Name, ggSrc(p.fset, fl.Type))
+					s.ok = false
+					continue
+				}
+				if t.k == "struct" {
+					in := gvStructTab[t.sname]
+					if in == nil {
+						problem("internal/fastcsv/csv.go translation: field %s.%s uses struct %s before it is declared (order of gvStructs)", name, n.Name, t.sname)
+						s.ok = false
+						continue
+					}
+					if !in.ok {
+						s.ok = false
+					}
+					if in.needR {
+						s.needR = true
+					}
+				}
+				if t.k == "rd" {
+					s.needR = true
+				}
+				s.fields = append(s.fields, gvField{n.Name, t})
+			}
+		}
+	}
+}
+
+func (s *gvStruct) field(name string) (*gvT, bool) {
+	for _, f := range s.fields {
+		if f.name == name {
+			return f.t, true
+		}
+	}
+	return nil, false
+}
+
+func (s *gvStruct) tyApp() string {
+	if s.needR {
+		return "(gv_" + s.name + " R)"
+	}
+	return "gv_" + s.name
+}
+
+// record text of one struct
+func (s *gvStruct) record() string {
+	var b strings.Builder
+	par, imp := "", ""
+	if s.needR {
+		par, imp = " (R : Type)", " {R}"
+	}
+	fmt.Fprintf(&b, "Record gv_%s%s := gv_mk_%s {\n", s.name, par, s.name)
+	for i, f := range s.fields {
+		sep := ";"
+		if i == len(s.fields)-1 {
+			sep = " }."
+		}
+		fmt.Fprintf(&b, "  gv_%s_%s : %s%s\n", s.name, f.name, f.t.coq(), sep)
+	}
+	if s.needR {
+		fmt.Fprintf(&b, "Arguments gv_mk_%s {R}.\n", s.name)
+		for _, f := range s.fields {
+			fmt.Fprintf(&b, "Arguments gv_%s_%s {R}.\n", s.name, f.name)
+		}
+	}
+	for i, f := range s.fields {
+		var args []string
+		for j, g := range s.fields {
+			if i == j {
+				args = append(args, "v")
+			} else {
+				args = append(args, "(gv_"+s.name+"_"+g.name+" r)")
+			}
+		}
+		fmt.Fprintf(&b, "Definition gv_%s_set_%s%s (r : %s) (v : %s) : %s :=\n  gv_mk_%s %s.\n", s.name, f.name, imp, s.tyApp(), f.t.coq(), s.tyApp(), s.name, strings.Join(args, " "))
+	}
+	return b.String()
+}
+
+// path from a struct to its (unique) field of kind buf, as a list of field names
+func gvBufPath(sname string) ([]string, bool) {
+	s := gvStructTab[sname]
+	if s == nil {
+		return nil, false
+	}
+	for _, f := range s.fields {
+		if f.t.k == "buf" {
+			return []string{sname + "." + f.name}, true
+		}
+	}
+	for _, f := range s.fields {
+		if f.t.k == "struct" {
+			if rest, ok := gvBufPath(f.t.sname); ok {
+				return append([]string{sname + "." + f.name}, rest...), true
+			}
+		}
+	}
+	return nil, false
+}
+
+// ------------------------------------------------------------------ translation context
+
+type gvVar struct {
+	name string
+	t    *gvT
+}
+
+type gvFunc struct {
+	goName    string
+	coq       string
+	fd        *ast.FuncDecl
+	recv      string // Go name of the receiver, "" = none
+	recvT     *gvT
+	params    []gvVar
+	results   []*gvT
+	outs      []gvVar // what is answered after the results: pointer / window arguments, then the pointer receiver
+	needsFuel bool
+	done      bool
+	ok        bool
+	text      string
+}
+
+var gvFuncs map[string]*gvFunc // by Go name ("T.m" or "f")
+
+type gvCtx struct {
+	vars     []gvVar
+	brk      func() string             // meaning of break; nil = not allowed here
+	cont     func() string             // meaning of continue; nil = not inside a loop
+	retv     func(tuple string) string // how the function's answer is handed on
+	retPlain bool                      // retv(t) = "Ok t"
+	nested   bool                      // inside an if / switch / loop (no re-typing of variables)
+	inSwitch bool
+}
+
+type gvTr struct {
+	p      *pkgInfo
+	f      *gvFunc
+	loops  []string
+	bad    bool
+	ntmp   int
+	consts map[string]*big.Rat // constants declared inside the function
+}
+
+func (t *gvTr) fail(n ast.Node, format string, a ...interface{}) {
+	pos := ""
+	if n != nil {
+		pos = t.p.fset.Position(n.Pos()).String() + ": "
+	}
+	problem("internal/fastcsv/csv.go translation, function %s: %s%s", t.f.goName, pos, fmt.Sprintf(format, a...))
+	t.bad = true
+}
+
+func (t *gvTr) src(n ast.Node) string { return ggSrc(t.p.fset, n) }
+
+func (t *gvTr) tmp() string {
+	t.ntmp++
+	return fmt.Sprintf("t%d", t.ntmp)
+}
+
+func (c gvCtx) lookup(name string) (gvVar, bool) {
+	for i := len(c.vars) - 1; i >= 0; i-- {
+		if c.vars[i].name == name {
+			return c.vars[i], true
+		}
+	}
+	return gvVar{}, false
+}
+
+// the data of the scan buffer reachable from the first struct variable in scope
+func (t *gvTr) rootBuf(n ast.Node, c gvCtx) string {
+	for _, v := range c.vars {
+		if v.t.k != "struct" {
+			continue
+		}
+		path, ok := gvBufPath(v.t.sname)
+		if !ok {
+			continue
+		}
+		text := "v_" + v.name
+		for _, step := range path {
+			text = "(gv_" + strings.Replace(step, ".", "_", 1) + " " + text + ")"
+		}
+		return text
+	}
+	t.fail(n, "a view is used where no scan buffer is reachable")
+	return "(@nil N, 0)"
+}
+
+// ------------------------------------------------------------------ expressions
+
+// coerce an untyped constant / nil to the wanted type
+func (t *gvTr) coerce(n ast.Node, text string, ty *gvT, want *gvT) (string, *gvT) {
+	if ty.k == "nil" {
+		switch want.k {
+		case "err":
+			return "gv_nil", gvErr
+		case "view":
+			return "(0, 0)", gvView
+		case "views":
+			return "[]", gvViews
+		}
+		t.fail(n, "nil in a context of type %s", want.name())
+		return text, want
+	}
+	if ty.k != "const" {
+		return text, ty
+	}
+	if !ty.val.IsInt() {
+		t.fail(n, "constant %s is not an integer", ty.val.String())
+		return "0", want
+	}
+	switch want.k {
+	case "int":
+		if ty.val.Sign() < 0 {
+			return "(" + ty.val.Num().String() + ")", gvInt
+		}
+		return ty.val.Num().String(), gvInt
+	case "byte":
+		if ty.val.Sign() < 0 || ty.val.Num().BitLen() > 8 {
+			t.fail(n, "constant %s is not a byte", ty.val.String())
+			return "0%N", gvByte
+		}
+		return ty.val.Num().String() + "%N", gvByte
+	}
+	t.fail(n, "constant %s in a context of type %s", ty.val.String(), want.name())
+	return "0", want
+}
+
+func gvRoot(e ast.Expr) string { // root variable of x, x.f.g, x[i], x[a:b], &x, *x
+	switch x := e.(type) {
+	case *ast.Ident:
+		return x.Name
+	case *ast.SelectorExpr:
+		return gvRoot(x.X)
+	case *ast.IndexExpr:
+		return gvRoot(x.X)
+	case *ast.SliceExpr:
+		return gvRoot(x.X)
+	case *ast.ParenExpr:
+		return gvRoot(x.X)
+	case *ast.StarExpr:
+		return gvRoot(x.X)
+	case *ast.UnaryExpr:
+		if x.Op == token.AND {
+			return gvRoot(x.X)
+		}
+	}
+	return ""
+}
+
+// the translated function a call expression calls (nil = none), and the receiver expression of a method call
+func (t *gvTr) callee(ce *ast.CallExpr, c gvCtx) (*gvFunc, ast.Expr) {
+	switch fn := ce.Fun.(type) {
+	case *ast.Ident:
+		if _, shadowed := c.lookup(fn.Name); shadowed {
+			return nil, nil
+		}
+		if g, ok := gvFuncs[fn.Name]; ok && g.recv == "" {
+			return g, nil
+		}
+	case *ast.SelectorExpr:
+		if r := gvRoot(fn.X); r != "" {
+			if _, known := c.lookup(r); known {
+				var pre []string
+				_, tr := t.expr(fn.X, c, &pre)
+				if tr.k == "struct" {
+					if g, ok := gvFuncs[tr.sname+"."+fn.Sel.Name]; ok {
+						return g, fn.X
+					}
+				}
+			}
+		}
+	}
+	return nil, nil
+}
+
+// is this a call X.Read(p) on a value of the abstract reader type?
+func (t *gvTr) isIoRead(ce *ast.CallExpr, c gvCtx) (ast.Expr, bool) {
+	se, ok := ce.Fun.(*ast.SelectorExpr)
+	if !ok || se.Sel.Name != "Read" || len(ce.Args) != 1 {
+		return nil, false
+	}
+	if r := gvRoot(se.X); r == "" {
+		return nil, false
+	} else if _, known := c.lookup(r); !known {
+		return nil, false
+	}
+	var pre []string
+	_, tr := t.expr(se.X, c, &pre)
+	return se.X, tr.k == "rd"
+}
+
+// expr translates an expression; operations that can panic are bound in *pre.
+func (t *gvTr) expr(e ast.Expr, c gvCtx, pre *[]string) (string, *gvT) {
+	switch x := e.(type) {
+	case *ast.ParenExpr:
+		return t.expr(x.X, c, pre)
+	case *ast.BasicLit:
+		if x.Kind == token.INT || x.Kind == token.CHAR {
+			if v, ok := evalConst(t.p, x); ok {
+				return "", &gvT{k: "const", val: v}
+			}
+		}
+	case *ast.Ident:
+		if v, ok := c.lookup(x.Name); ok {
+			return "v_" + v.name, v.t
+		}
+		switch x.Name {
+		case "true", "false":
+			return x.Name, gvBool
+		case "nil":
+			return "", gvNil
+		}
+		if v, ok := t.consts[x.Name]; ok {
+			return "", &gvT{k: "const", val: v}
+		}
+		if ce, ok := t.p.consts[x.Name]; ok {
+			if v, ok := evalConst(t.p, ce); ok {
+				return "", &gvT{k: "const", val: v}
+			}
+		}
+		t.fail(e, "unknown identifier %s", x.Name)
+		return "0", gvBad
+	case *ast.SelectorExpr:
+		if ggSelName(e) == "io.EOF" {
+			if _, shadowed := c.lookup("io"); !shadowed {
+				return "gv_EOF", gvErr
+			}
+		}
+		a, ta := t.expr(x.X, c, pre)
+		if ta.k == "struct" {
+			s := gvStructTab[ta.sname]
+			if ft, ok := s.field(x.Sel.Name); ok {
+				return "(gv_" + s.name + "_" + x.Sel.Name + " " + a + ")", ft
+			}
+			t.fail(e, "%s has no field %s", s.name, x.Sel.Name)
+			return "0", gvBad
+		}
+	case *ast.StarExpr:
+		a, ta := t.expr(x.X, c, pre)
+		if ta.k == "struct" && ta.ptr {
+			return a, ta
+		}
+	case *ast.IndexExpr:
+		a, ta := t.expr(x.X, c, pre)
+		i, ti := t.expr(x.Index, c, pre)
+		i, ti = t.coerce(x.Index, i, ti, gvInt)
+		if ti.k != "int" {
+			t.fail(e, "index of type %s", ti.name())
+			return "0", gvBad
+		}
+		tmp := t.tmp()
+		switch ta.k {
+		case "buf":
+			*pre = append(*pre, "do "+tmp+" <- gv_index "+a+" "+i+";\n")
+			return tmp, gvByte
+		case "view":
+			*pre = append(*pre, "do "+tmp+" <- gv_view_index "+t.rootBuf(e, c)+" "+a+" "+i+";\n")
+			return tmp, gvByte
+		case "views":
+			*pre = append(*pre, "do "+tmp+" <- gv_list_index "+a+" "+i+";\n")
+			return tmp, gvView
+		}
+		t.fail(e, "indexing a %s", ta.name())
+		return "0", gvBad
+	case *ast.SliceExpr:
+		return t.sliceExpr(x, c, pre)
+	case *ast.UnaryExpr:
+		switch x.Op {
+		case token.NOT:
+			a, ta := t.expr(x.X, c, pre)
+			if ta.k == "bool" {
+				return "(negb " + a + ")", gvBool
+			}
+		case token.AND:
+			if cl, ok := x.X.(*ast.CompositeLit); ok {
+				a, ta := t.composite(cl, c, pre)
+				return a, &gvT{k: ta.k, sname: ta.sname, ptr: true}
+			}
+		}
+	case *ast.BinaryExpr:
+		return t.binary(x, c, pre)
+	case *ast.CompositeLit:
+		return t.composite(x, c, pre)
+	case *ast.CallExpr:
+		return t.call(x, c, pre)
+	}
+	t.fail(e, "expression not understood: %s", t.src(e))
+	return "0", gvBad
+}
+
+func (t *gvTr) bound(e ast.Expr, dflt string, c gvCtx, pre *[]string) string {
+	if e == nil {
+		return dflt
+	}
+	a, ta := t.expr(e, c, pre)
+	a, ta = t.coerce(e, a, ta, gvInt)
+	if ta.k != "int" {
+		t.fail(e, "slice bound of type %s", ta.name())
+		return "0"
+	}
+	return a
+}
+
+func (t *gvTr) sliceExpr(x *ast.SliceExpr, c gvCtx, pre *[]string) (string, *gvT) {
+	if x.Slice3 {
+		t.fail(x, "3-index slice")
+		return "(0, 0)", gvView
+	}
+	a, ta := t.expr(x.X, c, pre)
+	switch ta.k {
+	case "buf":
+		lo := t.bound(x.Low, "0", c, pre)
+		hi := t.bound(x.High, "(gv_len "+a+")", c, pre)
+		tmp := t.tmp()
+		*pre = append(*pre, "do "+tmp+" <- gv_slice "+a+" "+lo+" "+hi+";\n")
+		return tmp, gvView
+	case "view":
+		lo := t.bound(x.Low, "0", c, pre)
+		hi := t.bound(x.High, "(gv_view_len "+a+")", c, pre)
+		tmp := t.tmp()
+		*pre = append(*pre, "do "+tmp+" <- gv_view_slice "+t.rootBuf(x, c)+" "+a+" "+lo+" "+hi+";\n")
+		return tmp, gvView
+	case "views":
+		if x.Low == nil && x.High != nil {
+			if v, ok := evalConst(t.p, x.High); ok && v.Sign() == 0 {
+				return "(@nil (Z * Z))", gvViews
+			}
+		}
+		t.fail(x, "only x[:0] is understood on a [][]byte")
+		return "[]", gvViews
+	}
+	t.fail(x, "slice expression on a %s", ta.name())
+	return "(0, 0)", gvView
+}
+
+func (t *gvTr) composite(cl *ast.CompositeLit, c gvCtx, pre *[]string) (string, *gvT) {
+	id, ok := cl.Type.(*ast.Ident)
+	if !ok || gvStructTab[id.Name] == nil {
+		t.fail(cl, "composite literal of a type that is not understood: %s", t.src(cl.Type))
+		return "0", gvBad
+	}
+	s := gvStructTab[id.Name]
+	vals := map[string]string{}
+	for _, el := range cl.Elts {
+		kv, ok := el.(*ast.KeyValueExpr)
+		if !ok {
+			t.fail(el, "%s literal without field names", s.name)
+			continue
+		}
+		name := kv.Key.(*ast.Ident).Name
+		ft, ok := s.field(name)
+		if !ok {
+			t.fail(el, "%s has no field %s", s.name, name)
+			continue
+		}
+		a, ta := t.expr(kv.Value, c, pre)
+		a, ta = t.coerce(kv.Value, a, ta, ft)
+		if !ta.same(ft) {
+			t.fail(el, "field %s.%s (a %s) initialised with a %s", s.name, name, ft.name(), ta.name())
+		}
+		vals[name] = a
+	}
+	var args []string
+	for _, f := range s.fields {
+		if v, ok := vals[f.name]; ok {
+			args = append(args, v)
+			continue
+		}
+		z, ok := f.t.zero()
+		if !ok {
+			t.fail(cl, "field %s.%s is left at its zero value, which has no translation (a nil io.Reader / an empty struct)", s.name, f.name)
+		}
+		args = append(args, z)
+	}
+	return "(gv_mk_" + s.name + " " + strings.Join(args, " ") + ")", &gvT{k: "struct", sname: s.name}
+}
+
+func (t *gvTr) binary(x *ast.BinaryExpr, c gvCtx, pre *[]string) (string, *gvT) {
+	if x.Op == token.LAND || x.Op == token.LOR {
+		a, ta := t.expr(x.X, c, pre)
+		var preB []string
+		b, tb := t.expr(x.Y, c, &preB)
+		if ta.k != "bool" || tb.k != "bool" {
+			t.fail(x, "%s on operands that are not conditions", x.Op)
+			return "false", gvBool
+		}
+		if len(preB) == 0 {
+			if x.Op == token.LAND {
+				return "(if " + a + " then " + b + " else false)", gvBool
+			}
+			return "(if " + a + " then true else " + b + ")", gvBool
+		}
+		// the right operand can panic: it is only evaluated when the left one lets it
+		tmp := t.tmp()
+		inner := strings.Join(preB, "") + "Ok " + b
+		if x.Op == token.LAND {
+			*pre = append(*pre, "do "+tmp+" <- (if "+a+" then\n"+gsIndent(inner)+"\nelse Ok false);\n")
+		} else {
+			*pre = append(*pre, "do "+tmp+" <- (if "+a+" then Ok true else\n"+gsIndent(inner)+");\n")
+		}
+		return tmp, gvBool
+	}
+	a, ta := t.expr(x.X, c, pre)
+	b, tb := t.expr(x.Y, c, pre)
+	if ta.k == "const" && tb.k == "const" {
+		var v *big.Rat
+		switch x.Op {
+		case token.ADD:
+			v = new(big.Rat).Add(ta.val, tb.val)
+		case token.SUB:
+			v = new(big.Rat).Sub(ta.val, tb.val)
+		case token.MUL:
+			v = new(big.Rat).Mul(ta.val, tb.val)
+		}
+		if v != nil {
+			return "", &gvT{k: "const", val: v}
+		}
+		t.fail(x, "constant expression not understood: %s", t.src(x))
+		return "0", gvBad
+	}
+	if ta.k == "const" || ta.k == "nil" {
+		a, ta = t.coerce(x.X, a, ta, tb)
+	} else if tb.k == "const" || tb.k == "nil" {
+		b, tb = t.coerce(x.Y, b, tb, ta)
+	}
+	if ta.k == "int" && tb.k == "int" {
+		switch x.Op {
+		case token.ADD:
+			return "(" + a + " + " + b + ")", gvInt
+		case token.SUB:
+			return "(" + a + " - " + b + ")", gvInt
+		case token.MUL:
+			return "(" + a + " * " + b + ")", gvInt
+		case token.REM:
+			return "(Z.rem " + a + " " + b + ")", gvInt
+		case token.QUO:
+			return "(Z.quot " + a + " " + b + ")", gvInt
+		case token.LSS:
+			return "(" + a + " <? " + b + ")", gvBool
+		case token.LEQ:
+			return "(" + a + " <=? " + b + ")", gvBool
+		case token.GTR:
+			return "(" + b + " <? " + a + ")", gvBool
+		case token.GEQ:
+			return "(" + b + " <=? " + a + ")", gvBool
+		case token.EQL:
+			return "(" + a + " =? " + b + ")", gvBool
+		case token.NEQ:
+			return "(negb (" + a + " =? " + b + "))", gvBool
+		}
+	}
+	if ta.k == "byte" && tb.k == "byte" {
+		switch x.Op {
+		case token.EQL:
+			return "(N.eqb " + a + " " + b + ")", gvBool
+		case token.NEQ:
+			return "(negb (N.eqb " + a + " " + b + "))", gvBool
+		}
+	}
+	if ta.k == "err" && tb.k == "err" {
+		switch x.Op {
+		case token.EQL:
+			return "(gv_error_eqb " + a + " " + b + ")", gvBool
+		case token.NEQ:
+			return "(negb (gv_error_eqb " + a + " " + b + "))", gvBool
+		}
+	}
+	if ta.k == "bool" && tb.k == "bool" && x.Op == token.EQL {
+		return "(Bool.eqb " + a + " " + b + ")", gvBool
+	}
+	t.fail(x, "operator %s on %s and %s is not understood", x.Op, ta.name(), tb.name())
+	return "0", gvBad
+}
+
+// call: calls that are plain expressions (built-ins); calls of translated functions are statements (callStmt)
+func (t *gvTr) call(x *ast.CallExpr, c gvCtx, pre *[]string) (string, *gvT) {
+	if id, ok := x.Fun.(*ast.Ident); ok {
+		if _, shadowed := c.lookup(id.Name); shadowed {
+			t.fail(x, "%s shadows a function", id.Name)
+			return "0", gvBad
+		}
+		switch id.Name {
+		case "len", "cap":
+			if len(x.Args) == 1 {
+				a, ta := t.expr(x.Args[0], c, pre)
+				switch {
+				case ta.k == "buf":
+					return "(gv_" + id.Name + " " + a + ")", gvInt
+				case ta.k == "view" && id.Name == "len":
+					return "(gv_view_len " + a + ")", gvInt
+				case ta.k == "views" && id.Name == "len":
+					return "(Z.of_nat (length " + a + "))", gvInt
+				case ta.k == "win" && id.Name == "len":
+					return "(fst " + a + ")", gvInt
+				}
+			}
+		case "append":
+			if len(x.Args) == 2 {
+				a, ta := t.expr(x.Args[0], c, pre)
+				b, tb := t.expr(x.Args[1], c, pre)
+				if ta.k == "views" && tb.k == "view" {
+					return "(" + a + " ++ [" + b + "])", gvViews
+				}
+			}
+		case "make":
+			if len(x.Args) == 3 {
+				n, tn := t.expr(x.Args[1], c, pre)
+				n, tn = t.coerce(x.Args[1], n, tn, gvInt)
+				cp, tc := t.expr(x.Args[2], c, pre)
+				cp, tc = t.coerce(x.Args[2], cp, tc, gvInt)
+				if tn.k == "int" && tc.k == "int" {
+					switch t.src(x.Args[0]) {
+					case "[]byte":
+						tmp := t.tmp()
+						*pre = append(*pre, "do "+tmp+" <- gv_make "+n+" "+cp+";\n")
+						return tmp, gvBuf
+					case "[][]byte":
+						if v, ok := evalConst(t.p, x.Args[1]); ok && v.Sign() == 0 {
+							return "(@nil (Z * Z))", gvViews
+						}
+					}
+				}
+			}
+		}
+	}
+	if g, _ := t.callee(x, c); g != nil {
+		t.fail(x, "a call of %s inside an expression (it changes state: only understood as a statement, a whole right-hand side, a whole condition or the only returned value)", g.goName)
+		return "0", gvBad
+	}
+	t.fail(x, "call not understood: %s", t.src(x))
+	return "0", gvBad
+}
+
+// ------------------------------------------------------------------ syntactic analyses
+
+// escapes: the statement contains a return, or a break / continue that leaves the statement itself.
+func gvEscapes(n ast.Node) bool {
+	found := false
+	var walk func(n ast.Node, loopDepth int)
+	walk = func(n ast.Node, loopDepth int) {
+		ast.Inspect(n, func(m ast.Node) bool {
+			switch x := m.(type) {
+			case *ast.ReturnStmt:
+				found = true
+			case *ast.BranchStmt:
+				if loopDepth == 0 {
+					found = true
+				}
+			case *ast.ForStmt:
+				if m != n {
+					walk(x.Body, loopDepth+1)
+					return false
+				}
+			case *ast.FuncLit:
+				return false
+			}
+			return true
+		})
+	}
+	walk(n, 0)
+	return found
+}
+
+// a break that leaves this loop body
+func gvHasBreak(body *ast.BlockStmt) bool {
+	found := false
+	var walk func(n ast.Node)
+	walk = func(n ast.Node) {
+		ast.Inspect(n, func(m ast.Node) bool {
+			switch x := m.(type) {
+			case *ast.BranchStmt:
+				if x.Tok == token.BREAK {
+					found = true
+				}
+			case *ast.ForStmt, *ast.RangeStmt, *ast.SwitchStmt, *ast.SelectStmt, *ast.FuncLit:
+				return false
+			}
+			return true
+		})
+	}
+	walk(body)
+	return found
+}
+
+// assigned: the variables of c (in order) that the nodes may change (an over-approximation).
+func (t *gvTr) assigned(c gvCtx, nodes ...ast.Node) []gvVar {
+	names := map[string]bool{}
+	mark := func(e ast.Expr) {
+		if r := gvRoot(e); r != "" {
+			names[r] = true
+		}
+	}
+	for _, n := range nodes {
+		if n == nil {
+			continue
+		}
+		ast.Inspect(n, func(m ast.Node) bool {
+			switch x := m.(type) {
+			case *ast.AssignStmt:
+				if x.Tok != token.DEFINE {
+					for _, l := range x.Lhs {
+						mark(l)
+					}
+				}
+			case *ast.IncDecStmt:
+				mark(x.X)
+			case *ast.CallExpr:
+				if se, ok := x.Fun.(*ast.SelectorExpr); ok {
+					mark(se.X)
+				}
+				if id, ok := x.Fun.(*ast.Ident); ok && id.Name == "copy" && len(x.Args) > 0 {
+					mark(x.Args[0])
+				}
+				for _, a := range x.Args {
+					if u, ok := a.(*ast.UnaryExpr); ok && u.Op == token.AND {
+						mark(u.X)
+					}
+					if se, ok := x.Fun.(*ast.SelectorExpr); ok && se.Sel.Name == "Read" {
+						mark(a)
+					}
+				}
+			}
+			return true
+		})
+	}
+	var out []gvVar
+	for _, v := range c.vars {
+		if names[v.name] {
+			out = append(out, v)
+		}
+	}
+	return out
+}
+
+func gvVarNames(vs []gvVar) []string {
+	var out []string
+	for _, v := range vs {
+		out = append(out, "v_"+v.name)
+	}
+	return out
+}
+
+func gvVarTypes(vs []gvVar) []string {
+	var out []string
+	for _, v := range vs {
+		out = append(out, v.t.coq())
+	}
+	return out
+}
+
+func gvTupleOrUnit(parts []string) string {
+	if len(parts) == 0 {
+		return "tt"
+	}
+	return ggTuple(parts)
+}
+
+func gvTypeTupleOrUnit(parts []string) string {
+	if len(parts) == 0 {
+		return "unit"
+	}
+	return ggTypeTuple(parts)
+}
+
+// ------------------------------------------------------------------ statements
+
+func (t *gvTr) declare(n ast.Node, c *gvCtx, name string, ty *gvT) {
+	if _, dup := c.lookup(name); dup {
+		t.fail(n, "%s shadows / redeclares a variable", name)
+	}
+	if _, isC := t.consts[name]; isC {
+		t.fail(n, "%s shadows a constant", name)
+	}
+	if _, isFn := gvFuncs[name]; isFn {
+		t.fail(n, "%s shadows a function", name)
+	}
+	if ty.k == "const" || ty.k == "nil" || ty.k == "bad" {
+		t.fail(n, "variable %s of a type that is not understood", name)
+		ty = gvInt
+	}
+	c.vars = append(c.vars, gvVar{name, &gvT{k: ty.k, sname: ty.sname, ptr: ty.ptr}})
+}
+
+// store: the statement(s) that give the place lhs the value val.
+func (t *gvTr) store(lhs ast.Expr, val string, tv *gvT, c *gvCtx, pre *[]string) string {
+	switch x := lhs.(type) {
+	case *ast.ParenExpr:
+		return t.store(x.X, val, tv, c, pre)
+	case *ast.StarExpr:
+		return t.store(x.X, val, tv, c, pre)
+	case *ast.Ident:
+		if x.Name == "_" {
+			return ""
+		}
+		for i := len(c.vars) - 1; i >= 0; i-- {
+			if c.vars[i].name != x.Name {
+				continue
+			}
+			v := c.vars[i]
+			if v.t.k == "rd" && tv.k == "struct" && gvPlaces["bufferedReader.r"] == "struct:"+tv.sname {
+				// a variable of interface type io.Reader receives the wrapper: from here on it has the finer type
+				if c.nested {
+					t.fail(lhs, "the io.Reader variable %s changes its dynamic type inside a branch or loop", x.Name)
+				}
+				vars := append([]gvVar{}, c.vars...)
+				vars[i] = gvVar{x.Name, &gvT{k: "struct", sname: tv.sname, ptr: true}}
+				c.vars = vars
+			} else if !tv.same(v.t) {
+				t.fail(lhs, "assignment to %s: a %s where a %s is expected", x.Name, tv.name(), v.t.name())
+			}
+			return "let v_" + x.Name + " := " + val + " in\n"
+		}
+		t.fail(lhs, "unknown variable %s", x.Name)
+		return ""
+	case *ast.SelectorExpr:
+		a, ta := t.expr(x.X, *c, pre)
+		if ta.k != "struct" {
+			t.fail(lhs, "assignment to a field of a %s", ta.name())
+			return ""
+		}
+		s := gvStructTab[ta.sname]
+		ft, ok := s.field(x.Sel.Name)
+		if !ok {
+			t.fail(lhs, "%s has no field %s", s.name, x.Sel.Name)
+			return ""
+		}
+		if !tv.same(ft) {
+			t.fail(lhs, "assignment to .%s: a %s where a %s is expected", x.Sel.Name, tv.name(), ft.name())
+		}
+		return t.store(x.X, "(gv_"+s.name+"_set_"+x.Sel.Name+" "+a+" "+val+")", ta, c, pre)
+	case *ast.IndexExpr:
+		a, ta := t.expr(x.X, *c, pre)
+		i, ti := t.expr(x.Index, *c, pre)
+		i, ti = t.coerce(x.Index, i, ti, gvInt)
+		if ta.k != "views" || ti.k != "int" || tv.k != "view" {
+			t.fail(lhs, "index assignment not understood")
+			return ""
+		}
+		tmp := t.tmp()
+		return "do " + tmp + " <- gv_list_update " + a + " " + i + " " + val + ";\n" + t.store(x.X, tmp, ta, c, pre)
+	}
+	t.fail(lhs, "assignment to %s", t.src(lhs))
+	return ""
+}
+
+// callStmt: a call of a translated function (or a Read of the underlying reader) with the stores of its outs.
+// Answers the text (ending in a newline), the temporaries holding the Go results and their types.
+func (t *gvTr) callStmt(ce *ast.CallExpr, c *gvCtx) (string, []string, []*gvT, bool) {
+	var pre []string
+	type back struct {
+		lval ast.Expr // place to store into (nil = none)
+		win  ast.Expr // for a window made from a slice expression: the buf it was sliced from
+		view string   // .. and the view temporary
+		tmp  string
+		ty   *gvT
+	}
+	var backs []back
+	var head string
+	var resT []*gvT
+	var outT []*gvT
+
+	winArg := func(a ast.Expr) (string, back) {
+		if se, ok := a.(*ast.SliceExpr); ok {
+			var p2 []string
+			_, tx := t.expr(se.X, *c, &p2)
+			if tx.k == "buf" {
+				v, _ := t.sliceExpr(se, *c, &pre)
+				return "(gv_win_of " + v + ")", back{win: se.X, view: v, ty: gvWin}
+			}
+		}
+		txt, ty := t.expr(a, *c, &pre)
+		if ty.k == "win" {
+			return txt, back{lval: a, ty: gvWin}
+		}
+		t.fail(a, "the argument of Read is neither a slice expression of a buffer nor a window")
+		return "(0, [])", back{ty: gvWin}
+	}
+
+	if rx, ok := t.isIoRead(ce, *c); ok {
+		r, _ := t.expr(rx, *c, &pre)
+		w, bk := winArg(ce.Args[0])
+		head = "gv_io_read " + r + " " + w
+		resT = []*gvT{gvInt, gvErr}
+		backs = append(backs, bk, back{lval: rx, ty: gvRd})
+		outT = []*gvT{gvWin, gvRd}
+	} else {
+		g, rx := t.callee(ce, *c)
+		if g == nil {
+			return "", nil, nil, false
+		}
+		if g == t.f {
+			t.fail(ce, "recursion")
+		} else if !g.done {
+			t.fail(ce, "%s is called before it is translated (order of gvSpecs)", g.goName)
+		}
+		if len(ce.Args) != len(g.params) {
+			t.fail(ce, "%s takes %d arguments", g.goName, len(g.params))
+			return "Panic\n", nil, nil, true
+		}
+		parts := []string{g.coq}
+		if g.needsFuel {
+			parts = append(parts, "fuel'")
+		}
+		var recvBack *back
+		if g.recv != "" {
+			r, tr := t.expr(rx, *c, &pre)
+			if !tr.same(g.recvT) {
+				t.fail(ce, "receiver of %s is a %s", g.goName, tr.name())
+			}
+			parts = append(parts, r)
+			if g.recvT.ptr {
+				recvBack = &back{lval: rx, ty: g.recvT}
+			}
+		}
+		for i, a := range ce.Args {
+			want := g.params[i].t
+			switch {
+			case want.k == "win":
+				w, bk := winArg(a)
+				parts = append(parts, w)
+				backs = append(backs, bk)
+				outT = append(outT, gvWin)
+			case want.k == "struct" && want.ptr:
+				lv := a
+				if u, ok := a.(*ast.UnaryExpr); ok && u.Op == token.AND {
+					lv = u.X
+				}
+				txt, ty := t.expr(lv, *c, &pre)
+				if !ty.same(want) {
+					t.fail(a, "argument of type %s where %s expects %s", ty.name(), g.goName, want.name())
+				}
+				if gvRoot(lv) == "" {
+					t.fail(a, "a pointer argument that is not the address of a place")
+				}
+				parts = append(parts, txt)
+				backs = append(backs, back{lval: lv, ty: want})
+				outT = append(outT, want)
+			default:
+				txt, ty := t.expr(a, *c, &pre)
+				txt, ty = t.coerce(a, txt, ty, want)
+				if !ty.same(want) {
+					t.fail(a, "argument of type %s where %s expects %s", ty.name(), g.goName, want.name())
+				}
+				parts = append(parts, txt)
+			}
+		}
+		if recvBack != nil {
+			backs = append(backs, *recvBack)
+			outT = append(outT, g.recvT)
+		}
+		head = strings.Join(parts, " ")
+		resT = g.results
+	}
+	var pat, res []string
+	for range resT {
+		tmp := t.tmp()
+		pat = append(pat, tmp)
+		res = append(res, tmp)
+	}
+	for i := range backs {
+		backs[i].tmp = t.tmp()
+		pat = append(pat, backs[i].tmp)
+	}
+	text := strings.Join(pre, "") + "do " + gvTupleOrUnit(pat) + " <- " + head + ";\n"
+	// the receiver first (it may contain the buffer a window was cut from), then the other outs
+	order := make([]back, 0, len(backs))
+	for i := len(backs) - 1; i >= 0; i-- {
+		order = append(order, backs[i])
+	}
+	for _, bk := range order {
+		var p2 []string
+		switch {
+		case bk.win != nil:
+			bt, _ := t.expr(bk.win, *c, &p2)
+			text += t.store(bk.win, "(gv_win_blit "+bt+" "+bk.view+" "+bk.tmp+")", gvBuf, c, &p2)
+		case bk.lval != nil:
+			text += t.store(bk.lval, bk.tmp, bk.ty, c, &p2)
+		}
+		if len(p2) != 0 {
+			t.fail(ce, "storing back the result of the call needs an operation that can panic")
+		}
+	}
+	return text, res, resT, true
+}
+
+// region of a copy operand: the buf it lives in (as a place), offset and length
+func (t *gvTr) region(e ast.Expr, c gvCtx, pre *[]string) (ast.Expr, string, string, string) {
+	if se, ok := e.(*ast.SliceExpr); ok {
+		var p2 []string
+		b, tb := t.expr(se.X, c, &p2)
+		if tb.k == "buf" {
+			v, _ := t.sliceExpr(se, c, pre)
+			return se.X, b, "(fst " + v + ")", "(gv_view_len " + v + ")"
+		}
+	}
+	b, tb := t.expr(e, c, pre)
+	if tb.k != "buf" {
+		t.fail(e, "copy operand that is neither a buffer nor a slice expression of one")
+		return nil, "(@nil N, 0)", "0", "0"
+	}
+	return e, b, "0", "(gv_len " + b + ")"
+}
+
+// simple: a statement without control flow, as a prefix "let .. in\n" / "do .. <- ..;\n"
+func (t *gvTr) simple(st ast.Stmt, c *gvCtx) (string, bool) {
+	var pre []string
+	wrap := func(s string) string { return strings.Join(pre, "") + s }
+	switch x := st.(type) {
+	case *ast.DeclStmt:
+		gd, ok := x.Decl.(*ast.GenDecl)
+		if !ok || gd.Tok != token.CONST {
+			return "", false
+		}
+		for _, sp := range gd.Specs {
+			vs := sp.(*ast.ValueSpec)
+			if vs.Type != nil || len(vs.Values) != len(vs.Names) {
+				t.fail(st, "only `const c = value` is understood")
+				return "", true
+			}
+			for i, n := range vs.Names {
+				_, ty := t.expr(vs.Values[i], *c, &pre)
+				if ty.k != "const" {
+					t.fail(st, "constant %s is not a constant expression I can evaluate", n.Name)
+					return "", true
+				}
+				if _, dup := c.lookup(n.Name); dup {
+					t.fail(st, "%s shadows a variable", n.Name)
+				}
+				if _, dup := t.consts[n.Name]; dup {
+					t.fail(st, "%s is declared twice", n.Name)
+				}
+				t.consts[n.Name] = ty.val
+			}
+		}
+		return "", true
+	case *ast.IncDecStmt:
+		a, ta := t.expr(x.X, *c, &pre)
+		if ta.k != "int" {
+			t.fail(st, "%s on a %s", x.Tok, ta.name())
+			return "", true
+		}
+		op := " + 1"
+		if x.Tok == token.DEC {
+			op = " - 1"
+		}
+		return wrap(t.store(x.X, "("+a+op+")", ta, c, &pre)), true
+	case *ast.ExprStmt:
+		ce, ok := x.X.(*ast.CallExpr)
+		if !ok {
+			return "", false
+		}
+		if id, ok := ce.Fun.(*ast.Ident); ok && id.Name == "copy" && len(ce.Args) == 2 {
+			if _, shadowed := c.lookup("copy"); !shadowed {
+				dl, d, doff, dlen := t.region(ce.Args[0], *c, &pre)
+				_, s, soff, slen := t.region(ce.Args[1], *c, &pre)
+				if dl == nil {
+					return "", true
+				}
+				return wrap(t.store(dl, "(gv_copy "+d+" "+doff+" "+dlen+" "+s+" "+soff+" "+slen+")", gvBuf, c, &pre)), true
+			}
+		}
+		if text, _, _, ok := t.callStmt(ce, c); ok {
+			return text, true
+		}
+		t.fail(st, "statement not understood: %s", t.src(st))
+		return "", true
+	case *ast.AssignStmt:
+		if x.Tok != token.DEFINE && x.Tok != token.ASSIGN {
+			t.fail(st, "assignment operator %s", x.Tok)
+			return "", true
+		}
+		if len(x.Rhs) == 1 {
+			if ce, ok := x.Rhs[0].(*ast.CallExpr); ok {
+				if text, res, resT, ok := t.callStmt(ce, c); ok {
+					if len(res) != len(x.Lhs) {
+						t.fail(st, "%d values assigned to %d places", len(res), len(x.Lhs))
+						return "", true
+					}
+					for i, l := range x.Lhs {
+						if x.Tok == token.DEFINE {
+							id, ok := l.(*ast.Ident)
+							if !ok {
+								t.fail(st, ":= on something that is not a variable")
+								return "", true
+							}
+							if id.Name == "_" {
+								continue
+							}
+							t.declare(st, c, id.Name, resT[i])
+							text += "let v_" + id.Name + " := " + res[i] + " in\n"
+						} else {
+							var p2 []string
+							text += t.store(l, res[i], resT[i], c, &p2)
+							if len(p2) != 0 {
+								t.fail(st, "the place assigned to needs an operation that can panic")
+							}
+						}
+					}
+					return text, true
+				}
+			}
+		}
+		if len(x.Rhs) != len(x.Lhs) || len(x.Lhs) != 1 {
+			t.fail(st, "assignment with %d left and %d right sides", len(x.Lhs), len(x.Rhs))
+			return "", true
+		}
+		if x.Tok == token.ASSIGN {
+			// b = b[:hi] on a buffer: the same array with another length
+			if se, ok := x.Rhs[0].(*ast.SliceExpr); ok && t.src(se.X) == t.src(x.Lhs[0]) {
+				var p2 []string
+				b, tb := t.expr(x.Lhs[0], *c, &p2)
+				if tb.k == "buf" {
+					zeroLow := se.Low == nil
+					if se.Low != nil {
+						if v, ok := evalConst(t.p, se.Low); ok && v.Sign() == 0 {
+							zeroLow = true
+						}
+					}
+					if !zeroLow || se.Slice3 {
+						t.fail(st, "a buffer is re-sliced with a lower bound (its array would start elsewhere)")
+						return "", true
+					}
+					hi := t.bound(se.High, "(gv_len "+b+")", *c, &pre)
+					tmp := t.tmp()
+					pre = append(pre, "do "+tmp+" <- gv_reslice "+b+" "+hi+";\n")
+					return wrap(t.store(x.Lhs[0], tmp, gvBuf, c, &pre)), true
+				}
+			}
+		}
+		a, ta := t.expr(x.Rhs[0], *c, &pre)
+		if x.Tok == token.DEFINE {
+			id, ok := x.Lhs[0].(*ast.Ident)
+			if !ok {
+				t.fail(st, ":= on something that is not a variable")
+				return "", true
+			}
+			if ta.k == "const" {
+				a, ta = t.coerce(x.Rhs[0], a, ta, gvInt)
+			}
+			t.declare(st, c, id.Name, ta)
+			return wrap("let v_" + id.Name + " := " + a + " in\n"), true
+		}
+		if ta.k == "const" || ta.k == "nil" {
+			var p2 []string
+			_, tl := t.expr(x.Lhs[0], *c, &p2)
+			a, ta = t.coerce(x.Rhs[0], a, ta, tl)
+		}
+		return wrap(t.store(x.Lhs[0], a, ta, c, &pre)), true
+	}
+	return "", false
+}
+
+func gvRestrict(inner, outer gvCtx) gvCtx {
+	r := outer
+	// the types of the outer variables may have been refined (io.Reader -> wrapper)
+	r.vars = inner.vars[:len(outer.vars)]
+	return r
+}
+
+// cond: a condition, possibly a call with side effects; answers the prefix and the boolean text
+func (t *gvTr) cond(e ast.Expr, c *gvCtx) (string, string) {
+	if ce, ok := e.(*ast.CallExpr); ok {
+		if text, res, resT, ok := t.callStmt(ce, c); ok {
+			if len(res) != 1 || resT[0].k != "bool" {
+				t.fail(e, "a call used as a condition must answer one bool")
+				return text, "false"
+			}
+			return text, res[0]
+		}
+	}
+	var pre []string
+	ct, tc := t.expr(e, *c, &pre)
+	if tc.k != "bool" {
+		t.fail(e, "a condition is expected")
+		return "", "false"
+	}
+	return strings.Join(pre, ""), ct
+}
+
+func (t *gvTr) stmts(list []ast.Stmt, c gvCtx, k func(gvCtx) string) string {
+	if len(list) == 0 {
+		return k(c)
+	}
+	st, rest := list[0], list[1:]
+	memo, have := "", false
+	next := func(c2 gvCtx) string {
+		if !have {
+			memo, have = t.stmts(rest, c2, k), true
+		}
+		return memo
+	}
+	switch x := st.(type) {
+	case *ast.ReturnStmt:
+		return t.ret(x, c)
+	case *ast.BranchStmt:
+		if x.Label != nil {
+			t.fail(st, "labels are not understood")
+			return "Panic"
+		}
+		switch x.Tok {
+		case token.BREAK:
+			if c.inSwitch || c.brk == nil {
+				t.fail(st, "break is not understood here (inside a switch, or outside a loop)")
+				return "Panic"
+			}
+			return c.brk()
+		case token.CONTINUE:
+			if c.cont == nil {
+				t.fail(st, "continue outside a loop")
+				return "Panic"
+			}
+			return c.cont()
+		}
+		t.fail(st, "%s is not understood", x.Tok)
+		return "Panic"
+	case *ast.BlockStmt:
+		return t.stmts(x.List, c, func(c2 gvCtx) string { return next(gvRestrict(c2, c)) })
+	case *ast.IfStmt:
+		return t.ifStmt(x, c, next)
+	case *ast.SwitchStmt:
+		return t.switchStmt(x, c, next)
+	case *ast.ForStmt:
+		return t.forStmt(x, c, next)
+	}
+	if text, ok := t.simple(st, &c); ok {
+		return text + next(c)
+	}
+	t.fail(st, "statement not understood: %s", t.src(st))
+	return "Panic"
+}
+
+func (t *gvTr) ifStmt(x *ast.IfStmt, c gvCtx, next func(gvCtx) string) string {
+	c1 := c
+	c1.nested = true
+	initText := ""
+	if x.Init != nil {
+		txt, ok := t.simple(x.Init, &c1)
+		if !ok {
+			t.fail(x.Init, "if init statement not understood")
+		}
+		initText = txt
+	}
+	pre, ct := t.cond(x.Cond, &c1)
+	head := initText + pre + "if " + ct + " then\n"
+	elseList := ggElse(x)
+	back := func(c2 gvCtx) gvCtx {
+		r := gvRestrict(c2, c)
+		r.nested = c.nested
+		return r
+	}
+	if !gvEscapes(x) {
+		vs := t.assigned(c, x)
+		if len(vs) == 0 {
+			t.fail(x, "an if that changes nothing")
+			return "Panic"
+		}
+		okPat := "Ok " + ggTuple(gvVarNames(vs))
+		thenT := t.stmts(x.Body.List, c1, func(gvCtx) string { return okPat })
+		elseT := t.stmts(elseList, c1, func(gvCtx) string { return okPat })
+		inner := head + gsIndent(thenT) + "\nelse\n" + gsIndent(elseT)
+		return "do " + ggTuple(gvVarNames(vs)) + " <- (\n" + gsIndent(inner) + ");\n" + next(c)
+	}
+	thenT := t.stmts(x.Body.List, c1, func(c2 gvCtx) string { return next(back(c2)) })
+	elseT := t.stmts(elseList, c1, func(c2 gvCtx) string { return next(back(c2)) })
+	return head + gsIndent(thenT) + "\nelse\n" + gsIndent(elseT)
+}
+
+func (t *gvTr) switchStmt(x *ast.SwitchStmt, c gvCtx, next func(gvCtx) string) string {
+	if x.Init != nil || x.Tag == nil {
+		t.fail(x, "only `switch tag { .. }` is understood")
+		return "Panic"
+	}
+	var pre []string
+	tag, tt := t.expr(x.Tag, c, &pre)
+	if tt.k != "byte" && tt.k != "int" {
+		t.fail(x.Tag, "switch on a %s", tt.name())
+		return "Panic"
+	}
+	c1 := c
+	c1.nested = true
+	c1.inSwitch = true
+	back := func(c2 gvCtx) string {
+		r := gvRestrict(c2, c)
+		r.nested, r.inSwitch = c.nested, c.inSwitch
+		return next(r)
+	}
+	var deflt *ast.CaseClause
+	var cases []*ast.CaseClause
+	for _, s := range x.Body.List {
+		cc := s.(*ast.CaseClause)
+		if cc.List == nil {
+			deflt = cc
+		} else {
+			cases = append(cases, cc)
+		}
+		for _, b := range cc.Body {
+			if bs, ok := b.(*ast.BranchStmt); ok && bs.Tok == token.FALLTHROUGH {
+				t.fail(b, "fallthrough")
+			}
+		}
+	}
+	var chain func(i int) string
+	chain = func(i int) string {
+		if i == len(cases) {
+			if deflt != nil {
+				return t.stmts(deflt.Body, c1, back)
+			}
+			return back(c1)
+		}
+		var conds []string
+		for _, e := range cases[i].List {
+			var p2 []string
+			v, tv := t.expr(e, c, &p2)
+			v, tv = t.coerce(e, v, tv, tt)
+			if len(p2) != 0 || !tv.same(tt) {
+				t.fail(e, "case expression not understood")
+				continue
+			}
+			if tt.k == "byte" {
+				conds = append(conds, "(N.eqb "+tag+" "+v+")")
+			} else {
+				conds = append(conds, "("+tag+" =? "+v+")")
+			}
+		}
+		ct := strings.Join(conds, " || ")
+		if len(conds) == 0 {
+			ct = "false"
+		}
+		body := t.stmts(cases[i].Body, c1, back)
+		return "if " + ct + " then\n" + gsIndent(body) + "\nelse\n" + gsIndent(chain(i+1))
+	}
+	return strings.Join(pre, "") + chain(0)
+}
+
+func (t *gvTr) outsTuple(res []string) string {
+	parts := append([]string{}, res...)
+	for _, o := range t.f.outs {
+		parts = append(parts, "v_"+o.name)
+	}
+	return gvTupleOrUnit(parts)
+}
+
+func (t *gvTr) ret(x *ast.ReturnStmt, c gvCtx) string {
+	if len(x.Results) == 1 {
+		if ce, ok := x.Results[0].(*ast.CallExpr); ok {
+			if text, res, resT, ok := t.callStmt(ce, &c); ok {
+				if len(res) != len(t.f.results) {
+					t.fail(x, "return of a call with %d values, the function has %d results", len(res), len(t.f.results))
+					return "Panic"
+				}
+				for i := range res {
+					if !resT[i].same(t.f.results[i]) {
+						t.fail(x, "result %d: a %s where a %s is expected", i, resT[i].name(), t.f.results[i].name())
+					}
+				}
+				return text + c.retv(t.outsTuple(res))
+			}
+		}
+	}
+	var pre []string
+	var res []string
+	if len(x.Results) != len(t.f.results) {
+		t.fail(x, "return with %d values, the function has %d results", len(x.Results), len(t.f.results))
+		return "Panic"
+	}
+	for i, r := range x.Results {
+		a, ta := t.expr(r, c, &pre)
+		a, ta = t.coerce(r, a, ta, t.f.results[i])
+		if !ta.same(t.f.results[i]) {
+			t.fail(r, "result %d: a %s where a %s is expected", i, ta.name(), t.f.results[i].name())
+		}
+		res = append(res, a)
+	}
+	return strings.Join(pre, "") + c.retv(t.outsTuple(res))
+}
+
+func (t *gvTr) resultType() string {
+	var tys []string
+	for _, r := range t.f.results {
+		tys = append(tys, r.coq())
+	}
+	for _, o := range t.f.outs {
+		tys = append(tys, o.t.coq())
+	}
+	return gvTypeTupleOrUnit(tys)
+}
+
+// loopDef emits the Fixpoint of a loop and answers its call; body contains @REC@ where the loop continues.
+func (t *gvTr) loopDef(c gvCtx, res []gvVar, body string, resType string) string {
+	var ps []gvVar
+	for _, v := range c.vars {
+		if gsMentions(body, "v_"+v.name) {
+			ps = append(ps, v)
+		}
+	}
+	for _, r := range res {
+		found := false
+		for _, v := range ps {
+			if v.name == r.name {
+				found = true
+			}
+		}
+		if !found {
+			ps = append(ps, r)
+		}
+	}
+	name := fmt.Sprintf("%s_loop%d", t.f.coq, len(t.loops)+1)
+	var sig, recArgs, callArgs []string
+	if gsMentions(body, "fuel'") {
+		sig = append(sig, "(fuel' : nat)")
+		recArgs = append(recArgs, "fuel'")
+		callArgs = append(callArgs, "fuel'")
+	}
+	sig = append(sig, "(k : nat)")
+	recArgs = append(recArgs, "k'")
+	callArgs = append(callArgs, "fuel'")
+	for _, v := range ps {
+		sig = append(sig, "(v_"+v.name+" : "+v.t.coq()+")")
+		recArgs = append(recArgs, "v_"+v.name)
+		callArgs = append(callArgs, "v_"+v.name)
+	}
+	body = strings.ReplaceAll(body, "@REC@", name+" "+strings.Join(recArgs, " "))
+	def := "Fixpoint " + name + " " + strings.Join(sig, " ") + " {struct k} : outcome " + resType + " :=\n" +
+		"  match k with\n  | O => Panic\n  | S k' =>\n" + gsIndent(gsIndent(body)) + "\n  end.\n"
+	t.loops = append(t.loops, def)
+	return name + " " + strings.Join(callArgs, " ")
+}
+
+func (t *gvTr) forStmt(x *ast.ForStmt, c gvCtx, next func(gvCtx) string) string {
+	if x.Init != nil || x.Post != nil {
+		t.fail(x, "a for loop with init / post statement")
+		return "Panic"
+	}
+	hasRet := gsContainsReturn(x.Body)
+	canExit := x.Cond != nil || gvHasBreak(x.Body)
+	var nodes []ast.Node
+	nodes = append(nodes, x.Body)
+	if x.Cond != nil {
+		nodes = append(nodes, x.Cond)
+	}
+	res := t.assigned(c, nodes...)
+	vtuple := gvTupleOrUnit(gvVarNames(res))
+	vtype := gvTypeTupleOrUnit(gvVarTypes(res))
+	cb := c
+	cb.nested = true
+	cb.inSwitch = false
+	cb.cont = func() string { return "@REC@" }
+	var exit, resType string
+	switch {
+	case !hasRet:
+		if len(res) == 0 {
+			t.fail(x, "a loop that changes nothing")
+			return "Panic"
+		}
+		if !canExit {
+			t.fail(x, "a loop that can neither end nor return")
+			return "Panic"
+		}
+		exit, resType = "Ok "+vtuple, vtype
+	case !canExit:
+		cb.retv = func(tp string) string { return "Ok " + tp }
+		cb.retPlain = true
+		resType = t.resultType()
+	default:
+		cb.retv = func(tp string) string { return "Ok (inl " + tp + ")" }
+		cb.retPlain = false
+		exit = "Ok (inr " + vtuple + ")"
+		resType = "(" + t.resultType() + " + " + vtype + ")"
+	}
+	if canExit {
+		cb.brk = func() string { return exit }
+	} else {
+		cb.brk = nil
+	}
+	body := ""
+	if x.Cond != nil {
+		cc := cb
+		pre, ct := t.cond(x.Cond, &cc)
+		iter := t.stmts(x.Body.List, cc, func(gvCtx) string { return "@REC@" })
+		body = pre + "if " + ct + " then\n" + gsIndent(iter) + "\nelse\n" + gsIndent(exit)
+	} else {
+		body = t.stmts(x.Body.List, cb, func(gvCtx) string { return "@REC@" })
+	}
+	call := t.loopDef(c, res, body, resType)
+	switch {
+	case !hasRet:
+		return "do " + vtuple + " <- " + call + ";\n" + next(c)
+	case !canExit:
+		if c.retPlain {
+			return call
+		}
+		tmp := t.tmp()
+		return "do " + tmp + " <- " + call + ";\n" + c.retv(tmp)
+	}
+	tmp, r := t.tmp(), t.tmp()
+	return "do " + tmp + " <- " + call + ";\nmatch " + tmp + " with\n| inl " + r + " => " + c.retv(r) + "\n| inr " + vtuple + " =>\n" + gsIndent(next(c)) + "\nend"
+}
+
+// ------------------------------------------------------------------ functions
+
+func gvSignature(p *pkgInfo, f *gvFunc) bool {
+	fd := f.fd
+	bad := func(format string, a ...interface{}) bool {
+		problem("internal/fastcsv/csv.go translation, function %s: %s", f.goName, fmt.Sprintf(format, a...))
+		return false
+	}
+	if fd.Recv != nil {
+		if len(fd.Recv.List) != 1 || len(fd.Recv.List[0].Names) != 1 {
+			return bad("receiver not understood")
+		}
+		rt := gvResolve(p, fd.Recv.List[0].Type, "")
+		if rt.k != "struct" {
+			return bad("receiver type not understood")
+		}
+		f.recv = fd.Recv.List[0].Names[0].Name
+		f.recvT = rt
+	}
+	for _, fl := range fd.Type.Params.List {
+		if len(fl.Names) == 0 {
+			return bad("an argument without name")
+		}
+		for _, n := range fl.Names {
+			ty := gvResolve(p, fl.Type, f.goName+"."+n.Name)
+			if ty.k == "bad" || ty.k == "buf" {
+				return bad("argument %s has a type that is not understood", n.Name)
+			}
+			f.params = append(f.params, gvVar{n.Name, ty})
+			if ty.k == "win" || ty.k == "struct" && ty.ptr {
+				f.outs = append(f.outs, gvVar{n.Name, ty})
+			}
+		}
+	}
+	if f.recv != "" && f.recvT.ptr {
+		f.outs = append(f.outs, gvVar{f.recv, f.recvT})
+	}
+	if fd.Type.Results != nil {
+		i := 0
+		for _, fl := range fd.Type.Results.List {
+			if len(fl.Names) > 0 {
+				return bad("named results")
+			}
+			ty := gvResolve(p, fl.Type, fmt.Sprintf("%s.result%d", f.goName, i))
+			if ty.k == "bad" || ty.k == "win" || ty.k == "rd" || ty.k == "buf" {
+				return bad("result type not understood")
+			}
+			f.results = append(f.results, ty)
+			i++
+		}
+	}
+	return true
+}
+
+// does the function contain a loop or call a fuelled function?
+func gvNeedsFuel(f *gvFunc) bool {
+	need := false
+	ast.Inspect(f.fd.Body, func(n ast.Node) bool {
+		switch x := n.(type) {
+		case *ast.ForStmt, *ast.RangeStmt:
+			need = true
+		case *ast.CallExpr:
+			name := ""
+			switch fn := x.Fun.(type) {
+			case *ast.Ident:
+				name = fn.Name
+			case *ast.SelectorExpr:
+				name = fn.Sel.Name
+			}
+			for _, g := range gvFuncs {
+				if g.done && g.needsFuel && (g.goName == name || strings.HasSuffix(g.goName, "."+name)) {
+					need = true
+				}
+			}
+		}
+		return true
+	})
+	return need
+}
+
+func gvTranslate(p *pkgInfo, f *gvFunc) {
+	t := &gvTr{p: p, f: f, consts: map[string]*big.Rat{}}
+	c := gvCtx{retv: func(tp string) string { return "Ok " + tp }, retPlain: true}
+	if f.recv != "" {
+		c.vars = append(c.vars, gvVar{f.recv, f.recvT})
+	}
+	c.vars = append(c.vars, f.params...)
+	for _, v := range c.vars {
+		if _, isFn := gvFuncs[v.name]; isFn {
+			t.fail(f.fd, "argument %s shadows a function", v.name)
+		}
+	}
+	body := t.stmts(f.fd.Body.List, c, func(c2 gvCtx) string {
+		if len(f.results) != 0 {
+			t.fail(f.fd, "the function can fall off its end")
+		}
+		return "Ok " + t.outsTuple(nil)
+	})
+	var sig []string
+	if f.needsFuel {
+		sig = append(sig, "(fuel : nat)")
+	}
+	for _, v := range c.vars {
+		sig = append(sig, "(v_"+v.name+" : "+v.t.coq()+")")
+	}
+	var b strings.Builder
+	fmt.Fprintf(&b, "(* %s\n%s *)\n", gvPkg, gsSource(p, f.fd))
+	for _, l := range t.loops {
+		b.WriteString(l)
+	}
+	if f.needsFuel {
+		fmt.Fprintf(&b, "Definition %s %s : outcome %s :=\n  match fuel with\n  | O => Panic\n  | S fuel' =>\n%s\n  end.\n",
+			f.coq, strings.Join(sig, " "), t.resultType(), gsIndent(gsIndent(body)))
+	} else {
+		if gsMentions(body, "fuel'") {
+			t.fail(f.fd, "a function without fuel uses fuel")
+		}
+		fmt.Fprintf(&b, "Definition %s %s : outcome %s :=\n%s.\n", f.coq, strings.Join(sig, " "), t.resultType(), gsIndent(body))
+	}
+	f.text = b.String()
+	f.ok = !t.bad
+}
+
+func genFastCsv() string {
+	p := loadPkg(gvPkg)
+	gvLoadStructs(p)
+	gvFuncs = map[string]*gvFunc{}
+	var order []*gvFunc
+	names := map[string]bool{}
+	for _, sn := range gvStructs {
+		if s := gvStructTab[sn]; s != nil {
+			for _, f := range s.fields {
+				names["gv_"+sn+"_"+f.name] = true
+				names["gv_"+sn+"_set_"+f.name] = true
+			}
+		}
+	}
+	for _, n := range gvSpecs {
+		f := &gvFunc{goName: n, coq: "gv_" + strings.ReplaceAll(n, ".", "_")}
+		if names[f.coq] {
+			problem("internal/fastcsv/csv.go translation: the name %s of function %s is also the name of a field access", f.coq, n)
+		}
+		gvFuncs[n] = f
+		order = append(order, f)
+	}
+	structsOK := true
+	for _, s := range gvStructs {
+		if !gvStructTab[s].ok {
+			structsOK = false
+		}
+	}
+	for _, f := range order {
+		fd, ok := p.funcs[f.goName]
+		if !ok || fd.Body == nil {
+			problem("internal/fastcsv/csv.go translation: function %s not found in %s", f.goName, gvPkg)
+			continue
+		}
+		f.fd = fd
+		if !structsOK || !gvSignature(p, f) {
+			f.fd = nil
+		}
+	}
+	for _, f := range order {
+		if f.fd != nil {
+			f.needsFuel = gvNeedsFuel(f)
+			gvTranslate(p, f)
+		}
+		f.done = true
+	}
+	golden := ""
+	if fl := flag.Lookup("golden"); fl != nil && fl.Value.String() != "" {
+		if gb, err := os.ReadFile(filepath.Join(fl.Value.String(), "GenFastCsv.v")); err == nil {
+			golden = string(gb)
+		}
+	}
+	block := func(b *strings.Builder, name, text string, ok bool) {
+		if !ok {
+			old, found := gfGoldenBlock(golden, name)
+			if !found {
+				return
+			}
+			text = "(* FALLBACK " + name + ": not derivable from the current source; text of the last validated tree *)\n" + old
+		}
+		fmt.Fprintf(b, "(* BEGIN %s *)\n%s(* END %s *)\n\n", name, text, name)
+	}
+	var b strings.Builder
+	b.WriteString(gvPreamble1)
+	for _, sn := range gvStructs {
+		s := gvStructTab[sn]
+		text := ""
+		if s.ok {
+			text = "(* " + gvPkg + "\n" + ggStructSource(p, sn) + " *)\n" + s.record()
+		}
+		block(&b, "gv_"+sn, text, s.ok)
+	}
+	b.WriteString(gvPreamble2)
+	for _, f := range order {
+		block(&b, f.coq, f.text, f.ok)
+	}
+	b.WriteString("End GenFastCsv.\n")
+	return b.String()
+}
